@@ -12,7 +12,8 @@ EXPLANATION = ("R13.1 routing table of FlexiLogger::log over brace lists of k<=2
                "record.level() <= that field (5x6 concrete table per writer); R13.3 duplication tables Duplicate x Level (7x5 per stream) of "
                "MultiWriter::write, each stream with its own format function and stream; R13.4 Duplicate<->u8 identity on 0..=6, "
                "adapt_duplication_to_* store into the field the matching region reads; R13.5 enabled() never answers false for a level the "
-               "addressed writer accepts.")
+               "addressed writer accepts."
+               " R13.3 also: on a row on which the write to the file writer / additional primary writer failed, both duplication decisions have been taken (a failing primary output does not suppress the duplicates).")
 ASSUMPTIONS = ["log::Level/LevelFilter order Off<Error<Warn<Info<Debug<Trace (documented discriminants)", "HashMap::get finds exactly the registered names"]
 NOT_DECIDED = ["what a syslog datagram looks like", "terminal capture of print macros", "lists longer than the unrolling bound (same loop body)"]
 FLOORS = {'R13.1': 1, 'R13.2': 1, 'R13.3': 2, 'R13.4': 3}
